@@ -816,11 +816,11 @@ package rib
 //@ assert at "has unresolved dependencies" [failed-no-trace] keptAll(niR.r.Afts) && r.disableForwardReferences
 //@ assert at "r.addPending(op.GetId()" [held-no-trace] keptAll(niR.r.Afts) && !r.disableForwardReferences
 //@ loop 1 modular
-//@ at "err := r.addEntryInternal(e.ni" ghost oksBefore = *oks
-//@ at "err := r.addEntryInternal(e.ni" ghost failsBefore = *fails
-//@ at "err := r.addEntryInternal(e.ni" ghost pendBefore = dom(r.pendingEntries)
-//@ at "err := r.addEntryInternal(e.ni" ghost stackBefore = dom(installStack)
-//@ at "err := r.addEntryInternal(e.ni" ghost stackValsBefore = vals(installStack)
+//@ at "r.addEntryInternal(" ghost oksBefore = *oks
+//@ at "r.addEntryInternal(" ghost failsBefore = *fails
+//@ at "r.addEntryInternal(" ghost pendBefore = dom(r.pendingEntries)
+//@ at "r.addEntryInternal(" ghost stackBefore = dom(installStack)
+//@ at "r.addEntryInternal(" ghost stackValsBefore = vals(installStack)
 //@ assert at "if err != nil {" [lemma-prefix] prefixKept(*oks, oksBefore) && prefixKept(*fails, failsBefore) && prefixKept(oksBefore, old(*oks)) && prefixKept(failsBefore, old(*fails))
 //@ assert at "if err != nil {" [lemma-held] (forall k in pendBefore :: k in old(dom(r.pendingEntries))) && e.op.GetId() in old(dom(r.pendingEntries))
 //@ assert at "if err != nil {" [lemma-new-known] newIDsKnown(*oks, len(oksBefore), e.op.GetId(), pendBefore) && newIDsKnown(*fails, len(failsBefore), e.op.GetId(), pendBefore)
